@@ -272,6 +272,155 @@ fn tx_proof_forgeries(w: &c10::Worlds, home: &crate::verif::driver::InFlight) ->
     out
 }
 
+/// Forgeries against the binding of an answer to the proven last header: the user asked for a
+/// header / a transaction that only a *foreign* chain (same genesis, parted before the proven
+/// tip) contains. The forger answers with the foreign chain's headers and MMR proof and the
+/// exact proven last header, whose `parent_chain_root` (optionally also extension) it replaced
+/// by the foreign chain's. Nothing of the foreign chain may be stored.
+fn foreign_root_pass(env: &Env, report: &mut Report, spec: &str, v1: bool) {
+    use crate::verif::driver::InFlight;
+    use crate::verif::net::Proto;
+    use crate::verif::world::{ProofVersion, View};
+    use crate::service::{ChainRpc, TransactionRpc};
+    use ckb_types::H256;
+    let params = Params { fork_at: 5, fork_tip: 16, proof_v1: v1, ..Params::default() };
+    let w = c10::worlds_with(env, &params);
+    let h = params.h1;
+    let version = if v1 { ProofVersion::V1 } else { ProofVersion::V0 };
+    let foreign_header = w.fork.blocks[8].hash();
+    // a transaction that only the foreign chain contains (cellbases of equal number and miner are
+    // the same transaction on both chains)
+    let foreign_tx = match w.fork.blocks[(params.fork_at as usize + 1)..(h as usize)]
+        .iter()
+        .flat_map(|b| b.transactions())
+        .map(|t| t.hash())
+        .find(|t| !w.main.tx_block.contains_key(t))
+    {
+        Some(t) => t,
+        None => {
+            report.violation("vacuous/no-foreign-transaction".to_owned(), "the foreign chain has no transaction of its own below the proven tip".to_owned(), json!({}));
+            return;
+        }
+    };
+    let mut old: Option<Sim> = None;
+    // (what is asked, variant of the forged last header)
+    for ask in ["header", "transaction"] {
+        for variant in ["honest-answer", "foreign-root", "foreign-root+extension", "foreign-last-header"] {
+            let (mut sim, _) = match c10::try_build_with(env, &w, &params, Scn::Ready, old.take()) {
+                Ok(r) => r,
+                Err(s) => {
+                    old = Some(s);
+                    continue;
+                }
+            };
+            let fh: H256 = foreign_header.unpack();
+            let ft: H256 = foreign_tx.unpack();
+            if ask == "header" {
+                let _ = sim.c().rpc_chain().fetch_header(fh.clone());
+            } else {
+                let _ = sim.c().rpc_tx().fetch_transaction(ft.clone());
+            }
+            sim.cm().tick_lc(1);
+            sim.pump_out();
+            // the request the client sent
+            let req = sim.sent_log.iter().rev().find_map(|s| {
+                if s.proto != Proto::LightClient {
+                    return None;
+                }
+                let m = packed::LightClientMessage::from_slice(&s.data).ok()?;
+                match m.to_enum() {
+                    packed::LightClientMessageUnion::GetBlocksProof(_) if ask == "header" => Some(m),
+                    packed::LightClientMessageUnion::GetTransactionsProof(_) if ask == "transaction" => Some(m),
+                    _ => None,
+                }
+            });
+            let req = match req {
+                Some(r) => r,
+                None => {
+                    report.count("foreign_root/request_not_sent", 1);
+                    old = Some(sim);
+                    continue;
+                }
+            };
+            let fork_view = View::new(&w.fork, h);
+            let fork_last = w.fork.blocks[h as usize].hash();
+            let main_vh = w.main.vh(h);
+            let fork_vh = w.fork.vh(h);
+            let last_header = match variant {
+                "foreign-root" => main_vh.clone().as_builder().parent_chain_root(fork_vh.parent_chain_root()).build(),
+                "foreign-root+extension" => main_vh.clone().as_builder().parent_chain_root(fork_vh.parent_chain_root()).extension(fork_vh.extension()).build(),
+                _ => fork_vh.clone(),
+            };
+            let data = if variant == "honest-answer" {
+                None
+            } else {
+                Some(match req.to_enum() {
+                    packed::LightClientMessageUnion::GetBlocksProof(r) => {
+                        let r2 = r.as_builder().last_hash(fork_last.clone()).build();
+                        let resp = fork_view.send_blocks_proof(&r2, version);
+                        match resp.to_enum() {
+                            packed::LightClientMessageUnion::SendBlocksProof(m) if m.count_extra_fields() >= 2 => {
+                                let m1 = packed::SendBlocksProofV1::new_unchecked(m.as_bytes()).as_builder().last_header(last_header).build();
+                                packed::LightClientMessage::new_builder().set(packed::SendBlocksProof::new_unchecked(m1.as_bytes())).build().as_bytes()
+                            }
+                            packed::LightClientMessageUnion::SendBlocksProof(m) => packed::LightClientMessage::new_builder().set(m.as_builder().last_header(last_header).build()).build().as_bytes(),
+                            _ => unreachable!(),
+                        }
+                    }
+                    packed::LightClientMessageUnion::GetTransactionsProof(r) => {
+                        let r2 = r.as_builder().last_hash(fork_last.clone()).build();
+                        let resp = fork_view.send_transactions_proof(&r2, version);
+                        match resp.to_enum() {
+                            packed::LightClientMessageUnion::SendTransactionsProof(m) if m.count_extra_fields() >= 2 => {
+                                let m1 = packed::SendTransactionsProofV1::new_unchecked(m.as_bytes()).as_builder().last_header(last_header).build();
+                                packed::LightClientMessage::new_builder().set(packed::SendTransactionsProof::new_unchecked(m1.as_bytes())).build().as_bytes()
+                            }
+                            packed::LightClientMessageUnion::SendTransactionsProof(m) => packed::LightClientMessage::new_builder().set(m.as_builder().last_header(last_header).build()).build().as_bytes(),
+                            _ => unreachable!(),
+                        }
+                    }
+                    _ => unreachable!(),
+                })
+            };
+            let r = crate::verif::props::panics::catch(|| match data {
+                Some(d) => {
+                    sim.queue.clear();
+                    sim.deliver_msg(InFlight { proto: Proto::LightClient, peer: 1, data: d, note: format!("forged answer ({})", variant) });
+                }
+                None => {
+                    let _ = sim.deliver_all_fifo(10);
+                }
+            });
+            report.count("transitions", 1);
+            report.count(&format!("foreign_root/{}", variant), 1);
+            if let Err(p) = r {
+                report.violation(format!("abort/{}", p.site()), format!("{} [foreign chain root, {} / {}]", p.describe(), ask, variant), json!({"scenario": "foreign-root", "ask": ask, "variant": variant, "spec": spec}));
+                continue;
+            }
+            let mut bad = inv_committed(&sim, &w.main);
+            if ask == "header" {
+                if let Ok(st) = sim.c().rpc_chain().fetch_header(fh.clone()) {
+                    if matches!(st, crate::service::FetchStatus::Fetched { .. }) {
+                        bad.push("fetch_header serves a header of the foreign chain as fetched".to_owned());
+                    }
+                }
+            } else if let Ok(st) = sim.c().rpc_tx().fetch_transaction(ft.clone()) {
+                if matches!(st, crate::service::FetchStatus::Fetched { .. }) {
+                    bad.push("fetch_transaction serves a transaction of the foreign chain as fetched".to_owned());
+                }
+            }
+            if !bad.is_empty() {
+                report.violation(
+                    format!("uncommitted-data-stored/foreign-chain-root/{}/{}", ask, variant),
+                    format!("an answer proving a {} of a foreign chain against the proven last header with a replaced chain root ({}) was accepted: {}", ask, variant, bad.join("; ")),
+                    json!({"scenario": "foreign-root", "ask": ask, "variant": variant, "spec": spec, "v1": v1, "bad": bad}),
+                );
+            }
+            old = Some(sim);
+        }
+    }
+}
+
 const HOME_SCNS: [Scn; 3] = [Scn::MatchedBlocksProof, Scn::MatchedBlocks, Scn::FetchProofs];
 
 pub(crate) fn run(opts: &Opts, report: &mut Report) {
@@ -286,8 +435,17 @@ pub(crate) fn run(opts: &Opts, report: &mut Report) {
     }
     let scns: Vec<Scn> = c10::ALL_SCN.to_vec();
     const CHUNKS: usize = 3;
-    let items = grid.len() * scns.len() * CHUNKS;
+    let sweep_items = grid.len() * scns.len() * CHUNKS;
+    // + the foreign-chain-root forgeries (V0, V1; thorough: also Eaglesong)
+    let foreign: Vec<(&'static str, bool)> = if thorough { vec![("mini_dummy.toml", false), ("mini_dummy.toml", true), ("mini_eaglesong.toml", false), ("mini_eaglesong.toml", true)] } else { vec![("mini_dummy.toml", false), ("mini_dummy.toml", true)] };
+    let items = sweep_items + foreign.len();
     let worker = crate::verif::props::shard::run("C02", opts, report, items, 16, |item, report| {
+        if item >= sweep_items {
+            let (spec, v1) = foreign[item - sweep_items];
+            let env = Env::new(spec);
+            foreign_root_pass(&env, report, spec, v1);
+            return;
+        }
         let chunk = item % CHUNKS;
         let item = item / CHUNKS;
         let (spec, params) = &grid[item / scns.len()];
